@@ -205,7 +205,9 @@ Definition configs_for (k:kind) (nvar:nat) (thorough:bool) : list config :=
   | KFmap | KDup =>
       configs_n 1 (if thorough then [0;1;2;3;4] else [0;1;2;3]) [0;1;2] [0]
   | KJoinVar =>
-      configs_n nvar (if thorough then [0;1;2;3] else [0;1;2]) (if thorough then [0;1;2] else [0;1]) [0]
+      if 3 <=? nvar
+      then configs_n nvar (if thorough then [0;1;2] else [0;1]) (if thorough then [0;1;2] else [0;1]) [0]
+      else configs_n nvar (if thorough then [0;1;2;3] else [0;1;2]) (if thorough then [0;1;2] else [0;1]) [0]
   | KJoinSl =>
       flat_map (fun n => configs_n n (if thorough then [0;1;2;3] else [0;1;2])
                                    (if thorough then [0;1;2] else [0;1]) [0])
